@@ -24,6 +24,8 @@ CONSTANTS
   WFault = FALSE
   TimeoutCarriesOver = FALSE
   WriteErrKeepsEntry = FALSE
+  AllowFire = FALSE
+  FireRegisters = FALSE
   MaxTry = 1
 INVARIANTS ChanClosedOnlyAfterOwnDone
 CHECK_DEADLOCK FALSE
